@@ -207,6 +207,10 @@ func (s pureSeeker) Read(p []byte) (int, error)                { return s.r.Read
 func (s pureSeeker) Seek(o int64, whence int) (int64, error) { return s.r.Seek(o, whence) }
 func (pureSeeker) Close() error                               { return nil }
 
+type badReader struct{}
+
+func (badReader) Read([]byte) (int, error) { return 0, errors.New("the body cannot be read") }
+
 type streamOnly struct{ r io.Reader }
 
 func (s streamOnly) Read(p []byte) (int, error) { return s.r.Read(p) }
@@ -214,7 +218,7 @@ func (s streamOnly) Read(p []byte) (int, error) { return s.r.Read(p) }
 type httpCase struct {
 	Script   []hSpec
 	Level    string // rt client
-	BodyKind string // None Seeker Stream
+	BodyKind string // None Seeker Stream Replaced
 	Body     string
 	ReqCtx   string // Background TODO Cancellable Values Deadline Custom CustomDone
 	ExecCtx  string // Background Cancellable Custom
@@ -305,11 +309,22 @@ func runHTTPCase(t *testing.T, c httpCase) (o httpObs) {
 			body = newSeekCloser([]byte(c.Body))
 		case "Stream":
 			body = streamOnly{strings.NewReader(c.Body)}
+		case "BadStream":
+			body = streamOnly{badReader{}} // a stream body that cannot be read: the call fails, and leaves nothing behind
 		}
 		url := "http://verif.invalid/path?q=1"
+		if c.BodyKind == "Replaced" {
+			body = bytes.NewReader([]byte("the template's body")) // net/http derives GetBody from it
+		}
 		req, err := http.NewRequestWithContext(ctx, "PUT", url, body)
 		if err != nil {
 			t.Fatal(err)
+		}
+		if c.BodyKind == "Replaced" {
+			// a request derived from a template and given a body of its own (what a middleware that rewrites bodies does): Body is
+			// what is sent; GetBody still describes the template and is not kept in step with it
+			req.Body = io.NopCloser(streamOnly{strings.NewReader(c.Body)})
+			req.ContentLength = int64(len(c.Body))
 		}
 		req.Header.Set("X-Verif", "hv")
 		var resp *http.Response
@@ -390,7 +405,7 @@ func rcfgGallina(k string) string {
 }
 
 func genHTTPCase(r *Rng) httpCase {
-	c := httpCase{Level: Pick(r, []string{"rt", "client"}), BodyKind: Pick(r, []string{"None", "Seeker", "Stream", "Stream"}),
+	c := httpCase{Level: Pick(r, []string{"rt", "client"}), BodyKind: Pick(r, []string{"None", "Seeker", "Stream", "Stream", "Replaced"}),
 		ReqCtx: Pick(r, []string{"Background", "TODO", "Cancellable", "Values", "Deadline", "Custom"}), ExecCtx: Pick(r, []string{"Background", "Background", "Cancellable", "Custom"}),
 		Stack: Pick(r, []string{"retry", "retry", "retry+timeout", "retry+breaker", "fallback+retry"})}
 	c.RetryCfg = Pick(r, []string{"", "", "delay", "backoff", "backoff", "random"})
@@ -929,13 +944,15 @@ func driveCustomCtxLeaks(t *testing.T, w *CaseWriter) {
 		for _, ec := range []string{"Custom", "Cancellable", "Background"} {
 			for _, stack := range []string{"retry", "retry+timeout"} {
 				for _, script := range [][]hSpec{{{Status: 200, RetryAfter: -1, Body: "b"}}, {{Status: 503, RetryAfter: -1, Body: "b"}, {Status: 200, RetryAfter: -1, Body: "b"}}} {
-					c := httpCase{Script: script, Level: "rt", BodyKind: "None", ReqCtx: rc, ExecCtx: ec, Stack: stack}
-					o := runHTTPCase(t, c)
-					leak := o.Leak
-					w.Add(func(id int) string { return fmt.Sprintf("CaseCore %d 3 %s", id, gBool(leak != "")) },
-						map[string]any{"scenario": "HTTP adapter, custom context types", "request_context": rc, "executor_context": ec, "stack": stack, "attempts": o.Attempts, "leak": leak},
-						true, fmt.Sprint("customctx", rc, ec, stack, len(script)))
-					w.Stat("custom_ctx_http")
+					for _, bk := range []string{"None", "BadStream"} {
+						c := httpCase{Script: script, Level: "rt", BodyKind: bk, ReqCtx: rc, ExecCtx: ec, Stack: stack}
+						o := runHTTPCase(t, c)
+						leak := o.Leak
+						w.Add(func(id int) string { return fmt.Sprintf("CaseCore %d 3 %s", id, gBool(leak != "")) },
+							map[string]any{"scenario": "HTTP adapter, custom context types", "request_context": rc, "executor_context": ec, "stack": stack, "body": bk, "attempts": o.Attempts, "leak": leak},
+							true, fmt.Sprint("customctx", rc, ec, stack, len(script), bk))
+						w.Stat("custom_ctx_http")
+					}
 				}
 			}
 		}
@@ -1062,6 +1079,36 @@ func driveCoreLeaks(t *testing.T, w *CaseWriter, rng *Rng) {
 			w.Add(func(id int) string { return fmt.Sprintf("CaseCore %d 7 %s", id, gBool(leak != "")) },
 				map[string]any{"scenario": "asynchronous execution whose result is never collected", "entry": entry, "how": how, "leak": leak}, true, fmt.Sprint("forget", entry, how))
 			w.Stat("core=fire-and-forget")
+		}
+	}
+	// a hedge policy around a retry policy: one branch waits out a long retry delay (a library wait) when the hedged run ends --
+	// with a result that arrives while the policy is busy starting the next hedge (a slow OnHedge listener), or at any other
+	// moment: the branch is cancelled and gone afterwards
+	for _, slowListener := range []bool{false, true} {
+		for _, winnerDur := range []time.Duration{5 * time.Millisecond, 12 * time.Millisecond, 25 * time.Millisecond} {
+			leak := leakOf(func() {
+				synctest.Test(t, func(t *testing.T) {
+					hb := hedgepolicy.BuilderWithDelay[int](10 * time.Millisecond).WithMaxHedges(2)
+					if slowListener {
+						hb = hb.OnHedge(func(failsafe.ExecutionEvent[int]) { time.Sleep(8 * time.Millisecond) })
+					}
+					rp := retrypolicy.Builder[int]().WithMaxRetries(2).WithDelay(100 * time.Hour).Build()
+					calls := 0
+					failsafe.NewExecutor[int](hb.Build(), rp).GetWithExecution(func(e failsafe.Execution[int]) (int, error) {
+						calls++
+						if !e.IsHedge() {
+							return 0, errors.New("the first branch fails at once and waits for its retry")
+						}
+						time.Sleep(winnerDur)
+						return 1, nil
+					})
+					time.Sleep(time.Hour)
+					synctest.Wait()
+				})
+			})
+			w.Add(func(id int) string { return fmt.Sprintf("CaseCore %d 8 %s", id, gBool(leak != "")) },
+				map[string]any{"scenario": "hedge policy around a retry policy, one branch in its retry delay when the run ends", "slow_OnHedge_listener": slowListener, "winner_takes_ms": winnerDur.Milliseconds(), "leak": leak}, true, fmt.Sprint("hedge-retry", slowListener, winnerDur))
+			w.Stat("core=hedge-around-retry")
 		}
 	}
 	// hedged executions, incl. cancelled ones and attempts that ignore the cancellation
